@@ -81,6 +81,12 @@ func (c *inlCtx) tryStmt(s ast.Stmt, next ast.Stmt) ([]ast.Stmt, bool, bool) {
 		if r, ok := c.inline(call, f, mode); ok {
 			return r, usedNext, true
 		}
+		if mode.consumer != nil {
+			mode.consumer, mode.dead = nil, make([]bool, len(st.Lhs))
+			if r, ok := c.inline(call, f, mode); ok {
+				return r, false, true
+			}
+		}
 	case *ast.IfStmt:
 		// if x := f(); cond {…}  ->  { x := f(); if cond {…} }
 		if as, ok := st.Init.(*ast.AssignStmt); ok && len(as.Rhs) == 1 {
@@ -207,6 +213,10 @@ func (c *inlCtx) inline(call *ast.CallExpr, f *Func, mode inlMode) ([]ast.Stmt, 
 		return nil, false
 	}
 	_ = first
+	if mode.consumer != nil && mode.tmpName == "" && b.knownFolds == 0 {
+		// no return decides the test of the results: copying it to every return would only duplicate it
+		return nil, false
+	}
 	var pre []ast.Stmt
 	useTok := token.ASSIGN
 	if mode.kind == mAssign && mode.tok == token.DEFINE {
@@ -269,7 +279,7 @@ func (c *inlCtx) inline(call *ast.CallExpr, f *Func, mode inlMode) ([]ast.Stmt, 
 
 // build clones the helper's body and eliminates its return statements according to the mode.
 func (b *builder) build() []ast.Stmt {
-	b.exits, b.exitTop, b.emitted = 0, false, 0
+	b.exits, b.exitTop, b.emitted, b.knownFolds = 0, false, 0, 0
 	b.declared = map[string]bool{}
 	b.varAssigned = map[int]bool{}
 	body := b.cloneBody()
